@@ -67,7 +67,8 @@ ReadResult(fl) ==
 Read(f) == /\ Len(hist) < MaxOps /\ loaded' = ReadResult(files[f]) /\ UNCHANGED files
            /\ Rec([op |-> "read", file |-> f, ok |-> loaded'.ok, sys |-> loaded'.sys])
 \* convert-to-raw: read, then write the raw format
-Convert(f, g) == /\ Len(hist) < MaxOps /\ f # g
+\* f = g is the in-place conversion (--input and --output name the same file): the source is read completely before the output is created
+Convert(f, g) == /\ Len(hist) < MaxOps
                  /\ LET r == ReadResult(files[f]) IN
                       /\ loaded' = r
                       /\ files' = IF r.ok THEN [files EXCEPT ![g] = [exists |-> TRUE, sys |-> r.sys, fmt |-> "r", len |-> Total(r.sys, "r")]] ELSE files
